@@ -343,3 +343,14 @@ Theorem C01_struct_roundtrip_emptydefault_refuted :
     n' <> n /\ ~ xstruct_sim e xs_bad_props xs_inner_si n n'.
 Proof. exact x_struct_roundtrip_emptydefault_refuted. Qed.
 Print Assumptions C01_struct_roundtrip_emptydefault_refuted.
+
+(* xstruct_sim is indistinguishable to Validate and Serialize: n' (the re-unserialized value) has the Validate verdict of n
+   and the SAME serialized form w — with C01_struct_roundtrip: Unserialize (Serialize n') = n' exactly, n' is the normal form of n *)
+Theorem C01_struct_sim_serialize : forall words pu f e id u props si n n',
+  xrt_desc e props si = true -> xstruct_sim e props si n n' ->
+  (xvalidate words pu (S f) e (XObject id u props (Some si)) n = Ok tt ->
+   xvalidate words pu (S f) e (XObject id u props (Some si)) n' = Ok tt) /\
+  (forall w, xserialize words pu (S f) e (XObject id u props (Some si)) n = Ok w ->
+             xserialize words pu (S f) e (XObject id u props (Some si)) n' = Ok w).
+Proof. exact x_struct_sim_paths. Qed.
+Print Assumptions C01_struct_sim_serialize.
